@@ -54,6 +54,8 @@ def linkerPass (L : LInterp σ V Id) (o : Opts) (sel : List Id) (t : Int) (k : N
 
 /-- The linker seen as a single model whose "evaluation pass" is `linkerPass`. -/
 def asInterp (L : LInterp σ V Id) (sel : List Id) : Interp σ V where
+  lags := 0     -- the linker's solve_t has no feasibility test; only `loop` is run on this interpretation
+  leads := 0
   check u t := L.check u sel t
   allFinite _ := true
   close := L.close
